@@ -127,7 +127,7 @@ Ltac step_cases o :=
   unfold step_st, step; destruct o; cbn [fst fold_left];
   unfold mint_apply, cert_apply, wd_apply, vote_apply, prop_apply, apply_res;
   repeat match goal with |- context [match ?r with Ok _ => _ | Err => _ | Panic => _ | OutOfFuel => _ end] => destruct r end;
-  cbn [fst t_inputs t_collateral t_mint t_certs t_wdrl t_votes t_props flat_map app apply_res fold_left].
+  cbn [fst t_inputs t_collateral t_mint t_certs t_wdrl t_votes t_props t_mint_amt flat_map app apply_res fold_left].
 
 Lemma proj_inputs ops : forall st, t_inputs (fold_left step_st ops st) = fold_left ib_step (ops_in ops) (t_inputs st).
 Proof.
@@ -744,7 +744,7 @@ Lemma build_fields st b : tx_build st = Ok b ->
   b_certs b = cert_body (t_certs st) /\ b_withdrawals b = wd_body (t_wdrl st) /\ b_voters b = vote_body (t_votes st) /\
   b_proposals b = prop_body (t_props st) /\ b_redeemers b = tx_redeemers st.
 Proof.
-  unfold tx_build. destruct (tx_has_plutus st && _); [discriminate|]. intros H. injection H as <-. cbn. repeat split; reflexivity.
+  unfold tx_build. destruct (_ || _); [discriminate|]. intros H. injection H as <-. cbn. repeat split; reflexivity.
 Qed.
 
 Lemma spec_pointers_same {K} T (final : K -> option (option wit)) ix R R' :
@@ -1099,7 +1099,7 @@ Proof. split; vm_compute; reflexivity. Qed.
 (* ---- the premises of the main theorem are satisfiable on a transaction that uses every purpose ---- *)
 Definition ex_ops : list op :=
   [ OpIn (InPlutus [7] ([3], 1) 101); OpCol (InKey w_oc); OpIn (InKey w_of); OpIn (InNative [8] ([3], 0)); OpIn (InPlutus [7] ([2], 9) 102);
-    OpMint (mkMintOp [9] (MPlutus true 103) false); OpMint (mkMintOp [4] (MNative true) false); OpMint (mkMintOp [1] (MPlutus false 104) false);
+    OpMint (mkMintOp [9] (MPlutus true 103) 0 1%Z false); OpMint (mkMintOp [4] (MNative true) 1 5%Z true); OpMint (mkMintOp [1] (MPlutus false 104) 0 2%Z false);
     OpCert (WAdd (mkCert 0 true 1)); OpCert (WAddPlutus (mkCert 7 true 1) 105); OpCert (WAdd (mkCert 4 false 2)); OpCert (WAddPlutus (mkCert 17 true 3) 106);
     OpWd (WAdd (mkRacct 0 (mkCred false [1]))); OpWd (WAddPlutus w_a9 107); OpWd (WAddPlutus w_a2 108);
     OpVote (WAdd w_vk); OpVote (WAddPlutus w_vs 109); OpVote (WAdd (VSPO [0])); OpVote (WAddPlutus (VCC (mkCred true [9])) 110);
